@@ -728,6 +728,8 @@ func runC08(r *simkit.R) {
 	lockAckAt := map[int]int{}    // object -> boundary counter when its lock was acknowledged
 	gcCheckAt := map[int]int{}    // object -> boundary counter of the last lock check made by the expired-objects handling
 	gcFirstCheckAt := map[int]int{}
+	gcPending := map[int][]int{} // object -> lock checks of the handling since its previous removal
+	gcVerdict := map[int]int{}   // object -> classification of the first removal after the lock's acknowledgement
 	gcDeleteAt := map[int]int{}   // object -> boundary counter of the last physical removal by the expired-objects handling
 	detached := map[int]bool{}    // shard index -> removed from the engine after its evacuation
 	nbound := 0
@@ -766,14 +768,16 @@ func runC08(r *simkit.R) {
 		if rolledBack[x] {
 			diag = "a tombstone of it had been stored on a shard and then rolled back by the failed broadcast"
 		}
-		if at, ok := gcDeleteAt[x]; ok && at > lockAckAt[x] && !partial[x] && !partialAny[x] {
+		if at, ok := gcDeleteAt[x]; ok && at > lockAckAt[x] {
+			// (also when the lock reached only some shards: the handling asks every shard, one
+			// holder of the lock is enough)
 			// the expired-objects handling removed it physically after the lock was acknowledged
 			// (several shards' GCs may run the handling for the same object at once: a removal
 			// belongs to SOME earlier lock check of that object)
-			switch first, checked := gcFirstCheckAt[x]; {
-			case !checked:
+			switch gcVerdict[x] {
+			case 0:
 				diag = "the expired-objects handling removed it without any lock check"
-			case first > lockAckAt[x]:
+			case 2:
 				diag = "the expired-objects handling removed it although its lock check ran after the lock was acknowledged"
 			default:
 				diag = "the lock was acknowledged between the lock check and the removal by the expired-objects handling"
@@ -852,7 +856,27 @@ func runC08(r *simkit.R) {
 							gcFirstCheckAt[x] = nbound
 						}
 						gcCheckAt[x] = nbound
+						gcPending[x] = append(gcPending[x], nbound)
 					} else if f[1] == "delete" {
+						// which lock checks does this removal follow (since the previous removal)?
+						// 0 none, 1 some check older than the lock's acknowledgement, 2 only newer ones
+						v := 0
+						if ack, ok := lockAckAt[x]; ok && len(gcPending[x]) > 0 {
+							v = 2
+							for _, c := range gcPending[x] {
+								if c <= ack {
+									v = 1
+								}
+							}
+						} else if len(gcPending[x]) > 0 {
+							v = 1
+						}
+						if _, ok := lockAckAt[x]; ok && (gcVerdict[x] == 0 || gcDeleteAt[x] <= lockAckAt[x]) {
+							gcVerdict[x] = v
+						}
+						if len(w.holders(x)) <= 1 {
+							gcPending[x] = nil // (the last copy goes: the next round starts afresh)
+						}
 						gcDeleteAt[x] = nbound
 						r.Probe("expired-objects handling removes an object physically")
 					}
